@@ -74,7 +74,14 @@ class Interp(Exec, Joins, Exprs, Subs, Calls, Methods, Assume):
         from ..minieval import ev, Undecidable
         m = self.prog.mods['stdnum.iban']
         fn = m.funcs['_struct_to_re']
-        struct_pat = ast.literal_eval(m.assign_nodes['_struct_re'].args[0])
+        # the compiled pattern whose .sub(<nested function>, <parameter>) rewrites the structure (whatever it is called)
+        sub_recv = [c.func.value.id for c in ast.walk(fn) if isinstance(c, ast.Call) and isinstance(c.func, ast.Attribute) and c.func.attr == 'sub'
+                    and isinstance(c.func.value, ast.Name) and c.func.value.id in m.assign_nodes]
+        if len(set(sub_recv)) != 1:
+            raise ValueError('no single module-level pattern is substituted in _struct_to_re()')
+        struct_name = sub_recv[0]
+        self.iban_struct_name = struct_name
+        struct_pat = ast.literal_eval(m.assign_nodes[struct_name].args[0])
         sre = _re.compile(struct_pat)
         consts = {}
         for st in m.tree.body:
@@ -84,6 +91,9 @@ class Interp(Exec, Joins, Exprs, Subs, Calls, Methods, Assume):
                 except (ValueError, SyntaxError):
                     pass
         inner = {n.name: n for n in fn.body if isinstance(n, ast.FunctionDef)}
+        # the per-match callback may also be a private module-level function
+        for n_, f_ in m.funcs.items():
+            inner.setdefault(n_, f_)
         param = fn.args.args[0].arg
 
         def run(body, env, hooks):
@@ -116,7 +126,7 @@ class Interp(Exec, Joins, Exprs, Subs, Calls, Methods, Assume):
                             raise Undecidable('flags')
                         node = node.args[0]
                     subs = [c for c in ast.walk(node) if isinstance(c, ast.Call) and isinstance(c.func, ast.Attribute) and c.func.attr == 'sub'
-                            and ast.unparse(c.func.value) == '_struct_re' and len(c.args) == 2 and isinstance(c.args[0], ast.Name) and c.args[0].id in inner]
+                            and ast.unparse(c.func.value) == struct_name and len(c.args) == 2 and isinstance(c.args[0], ast.Name) and c.args[0].id in inner]
                     if len(subs) != 1 or ast.unparse(subs[0].args[1]) != param:
                         raise Undecidable('shape of the substitution')
                     conv = call_inner(subs[0].args[0].id)
